@@ -8,9 +8,9 @@
    (Gen/Consts_C20.v); every copy into a fixed buffer is preceded by an explicit capacity check that
    yields [Crash Overflow] when it would not fit.
 
-   [variant]: the unchanged tree has two defects (DESIGN.md section 7, F16).  The mirror keeps them
-   ([nullchk = false], [paramchk = false]); the same functions with the flags set describe the
-   control flow after the proposed minimal fixes (notes/fix_C20_*.diff). *)
+   [variant]: the tree had two defects (DESIGN.md section 7, F16), repaired by the fix commits 057fee4
+   and 6ca4ce7.  [v_tree] (flags set) is the current control flow; [v_prefix] (flags clear) is the flow
+   before the fixes, kept as regression variant. *)
 From Coq Require Import ZArith List Bool Lia.
 From LV Require Import Gen.Consts_C20.
 Import ListNotations.
@@ -165,8 +165,10 @@ Record config := {
 }.
 
 Record variant := { nullchk : bool; paramchk : bool }.
-Definition v_tree := {| nullchk := false; paramchk := false |}.   (* the unchanged tree *)
-Definition v_fixed := {| nullchk := true; paramchk := true |}.    (* with fix_C20_1 and fix_C20_2 *)
+(* the tree since fix commits 057fee4 (strchr results tested) and 6ca4ce7 (empty parameter refused) *)
+Definition v_tree := {| nullchk := true; paramchk := true |}.
+(* the flow before those commits: kept as regression variant and for the refutation witnesses *)
+Definition v_prefix := {| nullchk := false; paramchk := false |}.
 
 (* what successive read() calls on the HTTP socket deliver; the end of the list is EAGAIN *)
 Inductive seg := Data (l : str) | Eof | Rerr.
